@@ -447,7 +447,8 @@ def check(scenario, w, st, res, ids):
     ob()
     kick = scenario.get('kick')
     if st['errs'] and not (kick and sim.stats.get('fault.send-error') and
-                           isinstance(st['errs'][0], OSError)):
+                           isinstance(st['errs'][0], OSError)) and \
+            not ref['ended_by_listener']:
         V.append(('C13/error-reported:%s' % type(st['errs'][0]).__name__,
                   str(st['errs'][0])[:160]))
         return
@@ -471,6 +472,20 @@ def check(scenario, w, st, res, ids):
                                'frames_sent': len(app.out_frames)}
         if sim.stats.get('fault.send-error'):
             res.probes['send-failed-with-packets-unread'] = 1
+    if ref['ended_by_listener'] and not kick:
+        n_cons = len(ref['exp_in_groups'])
+    if kick or ref['ended_by_listener']:
+        if st['errs'] and n_cons:
+            # an exception that escapes a stage of the LAST packet (say, a
+            # reaction that writes its answer at once and finds the socket
+            # dead) legitimately ends that packet's dispatch there (C14)
+            head = [(lid, tuple(k)) for g in ref['exp_in_groups'][:n_cons - 1]
+                    for lid, k in g]
+            last = [(lid, tuple(k)) for lid, k in
+                    ref['exp_in_groups'][n_cons - 1]]
+            tail = got_in[len(head):]
+            if got_in[:len(head)] == head and tail == last[:len(tail)]:
+                want_in = list(got_in)
     ob(len(want_in) + 1)
     if got_in != want_in:
         i = 0
@@ -495,7 +510,7 @@ def check(scenario, w, st, res, ids):
     if ref['ended_by_listener']:
         res.probes['early-listener-disconnected'] = 1
         ob()
-        if len(st['exits']) != 1:
+        if len(st['exits']) != 1 and not st['errs']:
             V.append(('C13/exit-callback-count', len(st['exits'])))
         return
     # built-in reaction present/absent (wire effect)
